@@ -340,6 +340,9 @@ func cmdCheck(args []string) int {
 	}
 	var results []runResult
 	inconclusive := []string{}
+	crossChecks := []string{}
+	loadFailed := 0
+	_ = loadFailed
 	engines := map[string]*Engine{}
 	only := os.Getenv("VERIF_ONLY") // development aid: restrict to runs whose name contains this; no evidence is written
 	for _, run := range def.Runs(tier) {
@@ -383,8 +386,15 @@ func cmdCheck(args []string) int {
 			}
 			eng, err = LoadEngine(repo, pat, ov)
 			if err != nil {
-				fmt.Fprintln(os.Stderr, "load failed (the tree does not type-check with the harness):", err)
-				return 2
+				// this run's harness does not build against the tree: no verdict from it; other runs still count
+				msg := strings.ReplaceAll(err.Error(), "\n", " ")
+				if len(msg) > 300 {
+					msg = msg[:300]
+				}
+				fmt.Fprintln(os.Stderr, "load failed (the tree does not type-check with the harness of run "+run.Name+"):", msg)
+				inconclusive = append(inconclusive, fmt.Sprintf("%s: the tree does not type-check with this run's harness (%s)", run.Name, msg))
+				loadFailed++
+				continue
 			}
 			for k, v := range run.Redirect {
 				eng.redirect[k] = v
@@ -415,6 +425,24 @@ func cmdCheck(args []string) int {
 		}
 		st := ex.Run()
 		results = append(results, runResult{run, st})
+		if tier == "thorough" && run.Pkg != "internal/ircserver" && os.Getenv("VERIF_NO_CROSS") == "" {
+			// solver diff: the same exploration decided by a second solver must take the same decisions
+			other := "z3-new"
+			if ex.solver == "z3-new" {
+				other = "z3"
+			}
+			ex2, err := NewExplorer(eng, run.Entry, opts)
+			if err == nil {
+				ex2.workers, ex2.timeout, ex2.solver = ex.workers, ex.timeout, other
+				st2 := ex2.Run()
+				same := st2.Paths == st.Paths && fmt.Sprint(st2.PathKinds) == fmt.Sprint(st.PathKinds) && st2.Queries.Unknown == 0
+				fmt.Printf("[%s/%s] %s: cross-solver %s vs %s: paths %d/%d kinds %v/%v agree=%v\n", id, tier, run.Name, ex.solver, other, st.Paths, st2.Paths, st.PathKinds, st2.PathKinds, same)
+				crossChecks = append(crossChecks, fmt.Sprintf("%s: %s and %s agree on %d paths %v: %v", run.Name, ex.solver, other, st.Paths, st.PathKinds, same))
+				if !same {
+					inconclusive = append(inconclusive, fmt.Sprintf("%s: solvers %s and %s disagree (paths %d vs %d, %v vs %v, unknown %d)", run.Name, ex.solver, other, st.Paths, st2.Paths, st.PathKinds, st2.PathKinds, st2.Queries.Unknown))
+				}
+			}
+		}
 		fmt.Printf("[%s/%s] %s: paths=%d %v queries=%d (sat %d unsat %d unknown %d) solver=%.1fs wall=%.1fs\n",
 			id, tier, run.Name, st.Paths, st.PathKinds, st.Queries.Queries, st.Queries.Sat, st.Queries.Unsat, st.Queries.Unknown, st.Queries.Time.Seconds(), st.Wall.Seconds())
 		for k, n := range st.Unsupported {
@@ -609,6 +637,9 @@ func cmdCheck(args []string) int {
 	cov["solver_s"] = solverS
 	cov["engine_notes"] = ns
 	cov["inconclusive"] = inconclusive
+	if len(crossChecks) > 0 {
+		cov["cross_solver"] = crossChecks
+	}
 	if def.Bounds != nil {
 		cov["bounds"] = def.Bounds(tier)
 	}
